@@ -1209,9 +1209,9 @@ def run(ctx):
         ctx.log("C07_DEV_NO_LEAN set: Lean obligations NOT checked in this run")
         ctx.broken("dev:no-lean", "C07_DEV_NO_LEAN is set")
     else:
-        proofs_ok = ctx.lean_props(["Holpy.C07.Props", "Holpy.C07.PropsText", "Holpy.C07.PropsTypes", "Holpy.C07.PropsTypesText"], exes=[EXE])
+        proofs_ok = ctx.lean_props(["Holpy.C07.Props", "Holpy.C07.PropsText", "Holpy.C07.PropsTypes", "Holpy.C07.PropsTypesText", "Holpy.C07.PropsBroken"], exes=[EXE])
         if ctx.tier == "thorough" and proofs_ok:
-            ctx.lean_check_modules(["Holpy.C07.Props", "Holpy.C07.PropsText", "Holpy.C07.PropsTypes", "Holpy.C07.PropsTypesText"])
+            ctx.lean_check_modules(["Holpy.C07.Props", "Holpy.C07.PropsText", "Holpy.C07.PropsTypes", "Holpy.C07.PropsTypesText", "Holpy.C07.PropsBroken"])
     if ops is None or levels is None:
         # fall back so that the failing-input search can still run
         ops, binders = ops or [], binders or []
